@@ -1359,11 +1359,17 @@ def add_ignores_history(source: str, full: bool = False) -> dict:
             raise Undecided("applied add-ignores change matches no diagnostic")
         L = change["lines"][0]
         cur_lines = cur.splitlines()
-        recent.append((d.code, cur_lines[L - 1].strip() if L - 1 < len(cur_lines) else ""))
-        for a in added:
-            if a["pos"] >= L:
-                a["pos"] += 1
-        added.append({"pos": L, "code": d.code, "desc": d.description, "target": recent[-1][1]})
+        orig_line = cur_lines[L - 1] if L - 1 < len(cur_lines) else ""
+        recent.append((d.code, orig_line.strip()))
+        if len(change["add"]) == 1 and change["add"][0].startswith(orig_line.rstrip()) and orig_line.strip():
+            # the tool appended a trailing comment to the offending line instead of inserting a comment line
+            suffix = change["add"][0].rstrip("\n")[len(orig_line.rstrip()):]
+            added.append({"pos": L, "code": d.code, "desc": d.description, "target": recent[-1][1], "trailing": suffix})
+        else:
+            for a in added:
+                if a["pos"] >= L:
+                    a["pos"] += 1
+            added.append({"pos": L, "code": d.code, "desc": d.description, "target": recent[-1][1]})
         last = (cur, d, L)
         cur = r.new_code
     res["outcome"] = outcome
@@ -1386,7 +1392,11 @@ def add_ignores_history(source: str, full: bool = False) -> dict:
     res["removal_checks"] = 0
     for a in added:
         p = a["pos"]
-        without = "\n".join(final_lines[: p - 1] + final_lines[p:]) + "\n"
+        if "trailing" in a:
+            stripped_line = final_lines[p - 1].replace(a["trailing"], "", 1)
+            without = "\n".join(final_lines[: p - 1] + [stripped_line] + final_lines[p:]) + "\n"
+        else:
+            without = "\n".join(final_lines[: p - 1] + final_lines[p:]) + "\n"
         if try_parse(without)[0] is None:
             continue
         try:
@@ -1398,6 +1408,8 @@ def add_ignores_history(source: str, full: bool = False) -> dict:
 
         def is_mine(d) -> bool:
             # the diagnostic(s) the comment was added for: its code, on the line whose text it was put above
+            if "trailing" in a:
+                return d.code == a["code"] and d.lineno == p
             return d.code == a["code"] and d.lineno is not None and wl[d.lineno - 1].strip() == a["target"]
 
         mine = [d for d in back if is_mine(d)]
